@@ -28,6 +28,7 @@ import Kanzi.Drv.BinEnt
 import Kanzi.Drv.LZ
 import Kanzi.Drv.TPAQ
 import Kanzi.Drv.Huffman
+import Kanzi.Drv.UTF
 
 open Kanzi
 
@@ -205,5 +206,6 @@ def main (args : List String) : IO UInt32 := do
   | ["lz"] => loop stdin stdout Kanzi.Drv.lz; return 0
   | ["tpaqpred"] => loop stdin stdout Kanzi.Drv.tpaqpred; return 0
   | ["huffman"] => loop stdin stdout Kanzi.Drv.huffman; return 0
+  | ["utf"] => loop stdin stdout Kanzi.Drv.utf; return 0
   | ["image"] => loop stdin stdout Kanzi.Drv.image; return 0
   | _ => IO.eprintln "usage: kmodel <norm>"; return 2
